@@ -133,6 +133,13 @@ THEOREMS = THEOREMS + [
     dict(name="Snow.GenTie.S1D.solid_q_e", clause="1D solidification loop: generated `q_e = -N_w*dHe` = the model's qEvap inside the window", strength="tie"),
     dict(name="Snow.GenTie.S2D.q_e", clause="2D cooling loop: generated `q_e = -N_w*dHe` with N_w := the model's vapour flux at the top node (S2D fluxAt) = S2D.qEvap inside the window", strength="tie"),
     dict(name="Snow.GenTie.S2D.solid_q_e", clause="2D solidification loop: generated `q_e = -N_w*dHe` with N_w := the model's vapour flux at the top node = S2D.qEvap inside the window", strength="tie"),
+    # the WHOLE statement `if (window condition): N_w = vapour_flux(…); q_e = -N_w*dHe  else: q_e = 0` of each loop,
+    # extracted as one conditional expression (window test, helper-call arguments, flux formula and the zero branch)
+    dict(name="Snow.GenTie.S1D.cool_q_e_if", clause="1D cooling loop: generated `if dt*i in window: q_e = -vapour_flux(kappa, m_water, k_B, p_vac, p_liq(T_top), T_top, T_top)*dHe else: q_e = 0` = the model's qEvap (VISF)", strength="tie"),
+    dict(name="Snow.GenTie.S1D.solid_q_e_if", clause="1D solidification loop: generated `if t_nuc+dt*i in window: q_e = -vapour_flux(…, p_ice(T_top), …)*dHe else: q_e = 0` = the model's qEvap (VISF)", strength="tie"),
+    dict(name="Snow.GenTie.S1D.q_e_call_sites", clause="1D cooling stage: the model's step function passes exactly this qEvap (liquid curve, time dt*i, top node) to the top boundary node", strength="tie"),
+    dict(name="Snow.GenTie.S2D.cool_q_e_if", clause="2D cooling loop: generated whole `if window … else: q_e = 0` statement (per radial node) = S2D.qEvap (VISF, code-as-is flags)", strength="tie"),
+    dict(name="Snow.GenTie.S2D.solid_q_e_if", clause="2D solidification loop: generated whole `if window … else: q_e = 0` statement = S2D.qEvap (VISF)", strength="tie"),
 ]
 extra_lean_targets = list(globals().get("extra_lean_targets", [])) + [
     "SnowProofs.Props.GenTie.Evap", gentie.module("1D"), gentie.module("2D")]
